@@ -207,3 +207,37 @@ def state_trace(core, sit):
         if s != out[-1]:
             out.append(s)
     return out
+
+
+def operational(n=3, config=None, master=0, fsm='OPERATION', local=0):
+    """a real instance in a consistent cluster: everybody RUNNING, one recognised Master, Supvisors in `fsm`"""
+    from supvisors.ttypes import SupvisorsInstanceStates as S, SupvisorsStates as F
+    cfg = {'synchro_options': 'LIST'}
+    cfg.update(config or {})
+    core = Core(n, local, cfg)
+    ids = core.ids
+    for i in ids:
+        core.identify(i)
+        core.set_instance_state(i, S.RUNNING)
+    m = ids[master]
+    core.state_modes.master_identifier = m
+    for i in ids:
+        if i != core.local_identifier:
+            adapter.plant_peer_state_modes(core, i, state=F[fsm], master_identifier=m,
+                                           instance_states={j: S.RUNNING for j in ids})
+    adapter.plant_fsm_state(core, F[fsm])
+    core.state_modes.evaluate_stability()
+    core.rpc_handler.out.clear()
+    core._round = 0
+    return core
+
+
+def cluster_round(core, silent=()):
+    """one tick period: the local tick, then one tick from every peer that is not silent"""
+    core._round += 1
+    core.tick()
+    for i in core.ids:
+        if i != core.local_identifier and i not in silent:
+            st = core.context.instances[i]
+            if st.state.name != 'ISOLATED':
+                core.peer_tick(i, core._round)
